@@ -16,6 +16,26 @@ CHECKS = {
                 technique="boundary-alphabet product + single-mutation enumeration + total small-group enumeration, lock-step BIP-340 reference",
                 text="Every message length 0..300 (and 11 longer lengths up to 10^5), the KEY alphabet closed under negation, all aux variants and both entry points are signed by the real code and byte-compared with the BIP-340 reference; every single-bit flip, every boundary scalar substituted for r and s, odd-y and infinity constructions are decided by the reference verifier; in the order-13 build every (r, s+kN) for every key and message is enumerated, which decides rejection of s >= n for valid signatures.",
                 note="r+p re-encodings of a valid signature are not constructible in any supported group; secp256k1 scalars outside the alphabets are not explored. Trusted: Python model (hashlib SHA-256, big-int group law)."),
+    "C03": dict(level=MC, design="§4 C03",
+                technique="deviation-bounded grammar enumeration + total short-string enumeration + boundary-alphabet product, lock-step strict-codec models",
+                text="DER strings are generated from the grammar SEQ(tag,len){INT(tag,len,content)x2}+trailing with up to 3 (thorough 4) simultaneous deviations over 9 positions, plus EVERY byte string of length <= 2 (thorough 3) and every string of length <= 5 (7) over a 12-symbol alphabet; compact / recoverable parsers over SC^2 and re-encoded valid signatures (s+n, r+n); public-key parsers over every prefix byte x lengths x boundary coordinates; DER / pubkey serialisers into every buffer length; the small-group build adds the subgroup check and the total 'rejected object never verifies' enumeration. An independent strict-codec model decides every case.",
+                note="Strings outside the grammar / length bounds are not explored. An object left by a rejected parse is required not to verify (the statement), not to be all-zero."),
+    "C04": dict(level=MC, design="§4 C04",
+                technique="explicit-state BFS over key states (to fixpoint in the small groups, depth-bounded on secp256k1) calling the real functions on every edge; exhaustive permutation enumeration for the sort",
+                text="State = secret key; every edge applies the real secret-side and public-side operation (negate, tweak_add, tweak_mul, x-only / keypair tweak, tweak_add_check) with a state-dependent tweak alphabet and compares both with the key-algebra model; BFS reaches a fixpoint over all keys in the order-13 group and depth 2 (thorough 3) on secp256k1; combine over every sequence of <= 3 group points and cancelling patterns up to 200 keys; cmp on all ordered pairs; sort for every length 0..200 x 9 patterns, all permutations n <= 7, and the internal heap sort on every sequence in {0..v-1}^n (17.7 M sequences).",
+                note="Tweaks outside the alphabet are not explored on secp256k1. Failed calls are required to leave an all-zero / unusable object as the headers state."),
+    "C05": dict(level=MC, design="§4 C05",
+                technique="boundary-alphabet products + history search over magnitude-building operation words + O(L^2) SHA-256 write-state search, each compared with big-integer / hashlib models, on a build matrix",
+                text="Field, scalar, group, ecmult-family and hash kernels are driven through byte-level wrappers on every member of a build matrix (5x52/10x26 field, 4x64/8x32 scalar, native/struct int128, asm on/off, table sizes; VERIFY builds assert the library's magnitude bookkeeping): FE alphabet (limb-boundary values for both layouts) x every admissible magnitude construction; all operation words up to length 3 (4) followed by each consumer; SC x SC for scalar ops incl. every bit offset; all ordered pairs of a 21-point set x z-rescalings; ecmult / const / x-only / gen under 5 blinding states; ecmult_multi for every batch size x scratch sizes x patterns; SHA-256 streaming states for every message length; HMAC / RFC 6979 / tagged hash for every key / seed / tag length; small-group builds enumerate group and ecmult totally.",
+                note="256-bit operands outside the alphabets are not explored on secp256k1; this is the property where the alphabet matters most. Compilers: gcc 12 / clang 14."),
+    "C06": dict(level="exploration", design="§4 C06",
+                technique="exhaustive enumeration of the public configuration space of each constant-time API, each execution monitored by valgrind memcheck definedness tracking (declassification-aware)",
+                text="432 public configurations (context state x optional-argument presence x signer count / tweak sequence / adaptor x public tweak / message-length alphabets x 2 secret values) of 29 constant-time entry points are each executed once per build under memcheck with the secret arguments undefined and the library's own declassification points live; any conditional jump or address depending on a secret is a violation, attributed to its configuration.",
+                note="Level is 'exploration': the enumerated dimension is the public one; secret values are covered per executed path by memcheck's definedness abstraction, not by enumeration (trace-equality over enumerated secrets would raise false alarms because BIP-340 signing legitimately branches on declassified public nonce parity). Secret/public roles follow the maintainers' ctime_tests.c."),
+    "C20": dict(level=MC, design="§4 C20",
+                technique="explicit-state BFS over context histories with a differential probe battery; schedule exploration by access monitoring (own TSan-ABI runtime) with an independence (single Mazurkiewicz trace) argument; free-running ThreadSanitizer pass",
+                text="Context histories (create / preallocated create, randomize with 4 seeds or NULL, install / reset a replaced SHA-256 compression function, clone / preallocated clone, clone-then-randomize-original, callbacks, unrelated-context disturbance) are explored breadth-first to depth 3 (thorough 5), merged on the canonical blinding state; in every state a 40-op battery covering every API family must be byte-identical to a fresh context's, with a balanced allocation ledger. The static context and a byte copy are probed op by op. For schedules, all 1600 ordered pairs (and triples) of battery ops run as logical threads on one shared context with every instrumented non-private memory access a visible operation: programs whose threads share no written byte are independent, so the executed schedule covers all interleavings; a dependent pair is reported as a race. Writable file-scope symbols of the library objects are checked against an allow-list; the small-group build checks n*G for every n in every reachable blinding state.",
+                note="Interleavings are decided at the granularity of accesses clang instruments (inline asm and libc internals are covered only by the separate free-running TSan pass); hardware memory-model effects are out of scope."),
 }
 
 NOT_YET = "check not built yet in this round (work in progress; see DESIGN.md section 4 for the planned exploration)"
